@@ -22,7 +22,9 @@ LISTREQ = {
 CANON_STR = ['/etc/a', '/etc/b', '/etc/a/b', '@{bin}/a', '@{bin}/ab', '@{lib}/x', '/zzz', '/zz', '/usr/share/x', '/home/u/.c',
              '@{run}/x', '/dev/null', '/opt/x', '/var/x', '/a', 'foo', 'bar', 'foo-bar', 'a.b', 'org.x.y', 'tcp', 'x',
              '/tmp/x', '@{tmp}/y', '/dev/shm/z', '/{a,b}', '/a*', '/a**', 'session', 'system', ':1.2',
-             'abstractions/base', 'abstractions/base', 'abstractions/bas', 'abstractions/base-x']
+             'abstractions/base', 'abstractions/base', 'abstractions/bas', 'abstractions/base-x',
+             '9', '10', '1024', '01024', '1min', '5m', '100', '99']
+NUMS = ['9', '10', '1024', '01024', '1min', '5m', '100', '99', '2', '1h', 'infinity']
 ODD_STR = ['/Foo', '/foo', '/ETC/a', '@{HOME}/.x', '@{PROC}/1', '/a b', '/a\tb', '/a b c', '@{HOME}/X', '"/q r"',
            'Org.X', 'org.X']
 
@@ -77,6 +79,9 @@ class Gen:
                 f.append(self.lst(kind, i))
             else:
                 f.append(r.random() < 0.3)
+        if kind == 'rlimit' and r.random() < 0.7:
+            # same resource, values that look like numbers: where a numeric and a textual order would part
+            f = [r.choice(['cpu', 'nofile', 'nice']), '<=', r.choice(NUMS)]
         q = (False, '')
         if kind in HASQ:
             q = (r.random() < 0.2, r.choice(['', '', '', 'deny', 'allow']))
@@ -100,7 +105,9 @@ class Gen:
         i = r.randrange(len(y['f']))
         t = SCHEMA[kind][i]
         if t == 's':
-            if odd and k == 2 and y['f'][i]:
+            if kind == 'rlimit' and i == 2:
+                y['f'][i] = r.choice(NUMS)
+            elif odd and k == 2 and y['f'][i]:
                 y['f'][i] = y['f'][i].swapcase()
             elif odd and k == 3 and y['f'][i]:
                 y['f'][i] = y['f'][i] + r.choice([' ', '\t', 'A'])
